@@ -31,7 +31,7 @@ m = {
     "setup_cmd": "./setup.sh",
     "hooks": {
         "guard": "--cfg wtransport_verif",
-        "enable": "RUSTFLAGS=\"--cfg wtransport_verif\" cargo build --offline (set by lib/vcheck.py for every harness build)",
+        "enable": "RUSTFLAGS=\"--cfg wtransport_verif\" cargo build --offline (set by lib/vcheck.py for every harness build); NOTE: no hook or instrumentation was added to /repo in this revision -- every harness uses public APIs only (wtransport features quinn, dangerous-configuration, self-signed)",
         "baseline_off_cmd": "cd /repo && cargo test --workspace --no-fail-fast --offline",
         "source_commits": hooks_commits,
         "add_only": True,
@@ -39,6 +39,8 @@ m = {
     "engines": [
         {"name": "coq", "path": "coq", "serves_properties": sorted(P.PROPS), "kind_free_text": "Rocq/Coq 8.16.1 development: Model (executable Gallina), Proofs, Props (property theorems), Corr (model side of the correspondence)"},
         {"name": "e1", "path": "harness/e1", "serves_properties": sorted(p for p in P.PROPS if any(e == "e1" for (e, _, _) in P.PROPS[p].get("suites", []))), "kind_free_text": "Rust codec harness: runs wtransport-proto on generated cases and prints them with observed outcomes as Coq terms; coqc evaluates the model on them"},
+        {"name": "e2", "path": "harness/e2", "serves_properties": sorted(p for p in P.PROPS if any(e == "e2" for (e, _, _) in P.PROPS[p].get("suites", []))), "kind_free_text": "Rust wire harness: the real wtransport driver on loopback against a raw quinn peer following byte scripts; scenario and observation printed as Coq terms and judged by the model"},
+        {"name": "e4", "path": "harness/e4", "serves_properties": sorted(p for p in P.PROPS if any(e == "e4" for (e, _, _) in P.PROPS[p].get("suites", []))), "kind_free_text": "Rust TLS/configuration harness: generated certificates with injected clocks, digest/PEM text, real sockets and connections"},
     ],
     "checks": checks,
     "not_applicable": [{"property_id": p, "reason": P.NOT_APPLICABLE.get(p, P.NOT_YET) if hasattr(P, "NOT_APPLICABLE") else P.NOT_YET} for p in P.ALL_IDS if p not in P.PROPS],
